@@ -101,6 +101,39 @@ Proof.
   - apply c09_qnat_le. lia.
 Qed.
 
+Lemma c09_qpos_spec r : (r <= 0 /\ qpos r = 0) \/ (0 <= r /\ qpos r = r).
+Proof.
+  unfold qpos, qmax. destruct (Qcleb_spec 0 r) as [H|H]; [right|left]; split; auto.
+  apply Qcnot_le_lt in H. apply Qclt_le_weak. exact H.
+Qed.
+
+Lemma c09_qpos_mono a b : a <= b -> qpos a <= qpos b.
+Proof.
+  intro H.
+  destruct (c09_qpos_spec a) as [[Ha Ea]|[Ha Ea]]; rewrite Ea.
+  - apply qpos_nonneg.
+  - destruct (c09_qpos_spec b) as [[Hb Eb]|[Hb Eb]]; rewrite Eb; [|exact H].
+    qc2q. lra.
+Qed.
+
+Lemma c09_qpos_le1 a : a <= 1 -> qpos a <= 1.
+Proof.
+  intro H. destruct (c09_qpos_spec a) as [[Ha Ea]|[Ha Ea]]; rewrite Ea; [|exact H].
+  qc2q. lra.
+Qed.
+
+Lemma c09_qpos_of_nonneg a : 0 <= a -> qpos a = a.
+Proof.
+  intro H. destruct (c09_qpos_spec a) as [[Ha Ea]|[Ha Ea]]; rewrite Ea; [|reflexivity].
+  apply Qcle_antisym; assumption.
+Qed.
+
+Lemma c09_qpos_of_nonpos a : a <= 0 -> qpos a = 0.
+Proof.
+  intro H. destruct (c09_qpos_spec a) as [[Ha Ea]|[Ha Ea]]; rewrite Ea; [reflexivity|].
+  apply Qcle_antisym; assumption.
+Qed.
+
 Lemma c09_linear_shape : C09_linear_shape.
 Proof.
   intros tau e e' init j Htau Hx Hj.
@@ -109,26 +142,38 @@ Proof.
   assert (Hqt : 0 < qnat tau) by (apply c09_qnat_pos; exact Htau).
   assert (Hi : 0 < / qnat tau) by (apply Qc_inv_pos; exact Hqt).
   assert (E : qnat tau * / qnat tau = 1) by (apply Qcmult_inv_r, Qc_pos_neq0; exact Hqt).
-  assert (He0 : 0 <= qnat e) by apply c09_qnat_nonneg.
   unfold Qcdiv.
-  split; [|split; [|split]].
-  - intro Hle. assert (Hqe : qnat e <= qnat tau) by (apply c09_qnat_le; exact Hle).
-    assert (Hr : 0 <= qnat e * / qnat tau /\ qnat e * / qnat tau <= 1).
-    { set (i := / qnat tau) in *. clearbody i.
-      set (qe := qnat e) in *. set (qt := qnat tau) in *. clearbody qe qt.
-      split; qc2q; nra. }
-    destruct Hr as [Hr0 Hr1].
-    set (r := qnat e * / qnat tau) in *. clearbody r.
-    split; qc2q; nra.
-  - intro Hle. assert (Hqe : qnat e <= qnat e') by (apply c09_qnat_le; exact Hle).
-    assert (Hr : qnat e * / qnat tau <= qnat e' * / qnat tau).
-    { set (i := / qnat tau) in *. clearbody i.
-      set (qe := qnat e) in *. set (qe' := qnat e') in *. clearbody qe qe'.
-      clear E Hqt. qc2q. nra. }
-    set (r := qnat e * / qnat tau) in *. set (r' := qnat e' * / qnat tau) in *. clearbody r r'.
-    qc2q. nra.
-  - rewrite c09_qnat_0. ring.
-  - rewrite E. ring.
+  (* facts on the un-floored ratio r n := 1 - qnat n / qnat tau *)
+  assert (Hr1 : forall n, 1 - qnat n * / qnat tau <= 1).
+  { intro n. pose proof (c09_qnat_nonneg n) as Hn.
+    set (i := / qnat tau) in *. clearbody i.
+    set (qn := qnat n) in *. clearbody qn. clear E Hqt. qc2q. nra. }
+  assert (Hanti : forall n m, (n <= m)%nat -> 1 - qnat m * / qnat tau <= 1 - qnat n * / qnat tau).
+  { intros n m Hle. pose proof (c09_qnat_le n m Hle) as Hq.
+    set (i := / qnat tau) in *. clearbody i.
+    set (qn := qnat n) in *. set (qm := qnat m) in *. clearbody qn qm. clear E Hqt. qc2q. nra. }
+  assert (Hge : forall n, (tau <= n)%nat -> 1 - qnat n * / qnat tau <= 0).
+  { intros n Hle. pose proof (c09_qnat_le tau n Hle) as Hq.
+    set (i := / qnat tau) in *. clearbody i.
+    set (qn := qnat n) in *. set (qt := qnat tau) in *. clearbody qn qt. qc2q. nra. }
+  assert (Hlt : forall n, (n <= tau)%nat -> 0 <= 1 - qnat n * / qnat tau).
+  { intros n Hle. pose proof (c09_qnat_le n tau Hle) as Hq.
+    set (i := / qnat tau) in *. clearbody i.
+    set (qn := qnat n) in *. set (qt := qnat tau) in *. clearbody qn qt. qc2q. nra. }
+  split; [|split; [|split; [|split; [|split]]]].
+  - pose proof (qpos_nonneg (1 - qnat e * / qnat tau)) as Hp.
+    set (p := qpos (1 - qnat e * / qnat tau)) in *. clearbody p. qc2q. nra.
+  - pose proof (qpos_nonneg (1 - qnat e * / qnat tau)) as Hp.
+    pose proof (c09_qpos_le1 _ (Hr1 e)) as Hp1.
+    set (p := qpos (1 - qnat e * / qnat tau)) in *. clearbody p. qc2q. nra.
+  - intro Hle. pose proof (c09_qpos_mono _ _ (Hanti e e' Hle)) as Hm.
+    set (p := qpos (1 - qnat e * / qnat tau)) in *.
+    set (p' := qpos (1 - qnat e' * / qnat tau)) in *. clearbody p p'. qc2q. nra.
+  - rewrite c09_qnat_0.
+    replace (1 - 0 * / qnat tau) with 1 by ring.
+    rewrite c09_qpos_of_nonneg by (qc2q; lra). ring.
+  - intro Hle. rewrite c09_qpos_of_nonpos by (apply Hge; exact Hle). ring.
+  - intro Hle. rewrite c09_qpos_of_nonneg by (apply Hlt; exact Hle). reflexivity.
 Qed.
 Print Assumptions c09_linear_shape.
 
